@@ -62,7 +62,7 @@ def check_unsat(formulas, timeout=None, try_cvc5=True):
         # fast path: in-process with a small deterministic resource limit (honoured, unlike the wall-clock timeout);
         # everything that does not finish within it goes to the killable child process
         s0 = z3.Solver()
-        s0.set('rlimit', 400000)
+        s0.set('rlimit', int(os.environ.get('VT_FAST_RLIMIT', '400000')))
         for f in formulas:
             s0.add(f)
         t0 = time.time()
